@@ -33,6 +33,8 @@ def pos_tuple(p):
 
 def run(ctx):
     repo = ctx.repo
+    from . import refgraph
+    refgraph.rule_identity_membership(ctx, "C11.identity_membership")
     hooks = LineHooks(repo)
     P = positions(repo)
     E = repo.cls("line.edge.GFA2")
